@@ -1463,6 +1463,9 @@ class Process(StateMachine, persistence.Savable, metaclass=ProcessStateMachineMe
         else:
             port_namespace = self.spec().outputs
 
+        if not isinstance(port_namespace, ports.PortNamespace):
+            raise ValueError(f"Error validating output '{value}' for port '{output_port}': '{port_namespace.name}' is a port")
+
         validation_error = None
         try:
             port = port_namespace[port_name]
@@ -1479,7 +1482,10 @@ class Process(StateMachine, persistence.Savable, metaclass=ProcessStateMachineMe
 
         output_namespace = self._outputs
         for sub_space in namespace:
-            output_namespace = output_namespace.setdefault(sub_space, {})
+            if not isinstance(output_namespace.get(sub_space), dict):
+                # (a value emitted earlier for what now is a namespace is replaced)
+                output_namespace[sub_space] = {}
+            output_namespace = output_namespace[sub_space]
 
         output_namespace[port_name] = value
         self.on_output_emitted(output_port, value, dynamic)
